@@ -190,7 +190,9 @@ CLAIMS["C13"] = claim("other",
     "remembered and raised as LenaKeyError; lemma: nothing changes after a stop); LenaSequence / SetContext ._get_context return "
     "a deep copy; SetContext._set_context (numbers, booleans, dictionaries, strings, templates: context == upd(old, nestk(key, "
     "value)), exact LenaValueError / LenaTypeError); StoreContext, UpdateContextFromStatic (_set_context and run), MakeFilename "
-    "retain a deep copy of what they are given and leave the argument unchanged; LenaSplit._set_context hands every branch its "
+    "retain a deep copy of what they are given and leave the argument unchanged; Write._set_context / Cache._set_context derive "
+    "the directory / file name from exactly the context they are handed (kept when a key is missing) and keep no reference to "
+    "it; LenaSplit._set_context hands every branch its "
     "own deep copy, LenaSplit._get_context is the intersection of the branches' contexts. Bounded part (labelled): ALL trees of "
     "Sequence / Source / Split with <= 4 nodes (thorough <= 5), depth <= 3, over 6 SetContext forms with all 9 probes in every "
     "gap, against a pure document-order fold; files actually written by Write and Cache. Three open known findings (empty Split "
